@@ -25,8 +25,8 @@ VERIF = os.path.dirname(os.path.dirname(os.path.abspath(__file__)))
 REPLAYS = os.environ.get('VERIF_REPLAY_DIR') or os.path.join(VERIF, 'replays')
 EVIDENCE = os.environ.get('VERIF_EVIDENCE_DIR') or os.path.join(VERIF, 'evidence')     # bin/seedtest points these elsewhere
 KNOWN = os.path.join(VERIF, 'known_findings.jsonl')
-RUN_WATCHDOG_S = 120     # hard: the worker dumps its stack and dies (a hang inside C code)
-RUN_SOFT_S = 60           # soft: SIGALRM raises RunTimeout inside the run, which is then reported with its plan
+RUN_WATCHDOG_S = 300     # hard: the worker dumps its stack and dies (a hang inside C code)
+RUN_SOFT_S = 150          # soft: SIGALRM raises RunTimeout inside the run, which is then reported with its plan
 
 
 def load_prop(prop):
